@@ -174,6 +174,8 @@ def run(m: Model, r: Report, tier: str) -> None:
     r.check(okz, "R2", f"{rz.qualname}#always-closes",
             "remove_zst_log_handler can return without closing the handler: the queue listener keeps running and the zstd frame of log.json.zst is never "
             "ended (unreadable / truncated log): " + " -> ".join(repr(gz.nodes[p_]) for p_ in pz[-3:]), loc=rz.loc)
+    from checks.c17 import zstd_close_rules
+    zstd_close_rules(m, r, "R2")
     # the DB completion takes the exit code from run_meta
     fin = m.require_function(f"{BASE}.BaseCommand._db_finish_run_meta")
     calls = [n for n in ast.walk(fin.node) if isinstance(n, ast.Call) and isinstance(n.func, ast.Attribute) and n.func.attr == "complete_run_meta"]
@@ -275,8 +277,9 @@ def run(m: Model, r: Report, tier: str) -> None:
     bad = truth_table([(early[0].test, True)], {SV_: [None, "", "./hook.sh"]}, lambda a: a[SV_] in (None, ""))
     r.check(not bad, "R9", f"{rh.qualname}#runs-iff-script", f"the hook is skipped on: {bad}; it must run exactly when a non-empty script is configured", loc=rh.loc)
     # (c) hook environment
-    for key, atoms, expect, doc in (("GALLIA_META", {vpar: ["PRE", "POST"]}, lambda a: a[vpar] == "POST", "only for the post-hook"),
-                                    ("GALLIA_EXIT_CODE", {epar: [None, 0, 3]}, lambda a: a[epar] is not None, "whenever an exit code is given (0 included)")):
+    both_atoms = {vpar: ["PRE", "POST"], epar: [None, 0, 3]}
+    for key, atoms, expect, doc in (("GALLIA_META", both_atoms, lambda a: a[vpar] == "POST", "only for the post-hook"),
+                                    ("GALLIA_EXIT_CODE", both_atoms, lambda a: a[epar] is not None, "whenever an exit code is given (0 included)")):
         sets = [n for n in ast.walk(rh.node) if isinstance(n, ast.Assign) and isinstance(n.targets[0], ast.Subscript) and isinstance(n.targets[0].slice, ast.Constant)
                 and n.targets[0].slice.value == key]
         if len(sets) != 1:
